@@ -8,7 +8,8 @@
 (*   [mn, sz, pfx, len, ops (, cc)], an operand being                      *)
 (*   [k |-> "reg", f |-> full register, o |-> bit offset, s |-> bits]      *)
 (*   [k |-> "xmm", n |-> name]                                             *)
-(*   [k |-> "mem", s, b |-> base | "" | "rip", i |-> index | "", sc, d, as]*)
+(*   [k |-> "mem", s, b |-> base | "" | "rip", i |-> index | "", sc, d, as *)
+(*    (, seg)]                                                             *)
 (*   [k |-> "imm", s, v]        [k |-> "rel", v]                           *)
 (* A machine state is [W, regs, fl, x, mem, base]: W = 32 | 64, regs maps  *)
 (* the full registers to W-bit values, fl the five modelled flags to 0/1,  *)
@@ -174,12 +175,15 @@ PopSt(st, n)  == SetReg(st, RSP(st), Add(st.W, SP(st), FromNat(st.W, n)))
 (* ------------------------------------------------------------------ *)
 (* string instructions                                                *)
 (* ------------------------------------------------------------------ *)
-\* one iteration; returns the new state or OOB
-StrIter(mn, st, s) ==
+\* one iteration; returns the new state or OOB.  asz is the address size: with the 0x67 prefix in
+\* 64-bit mode the index registers are esi / edi (and the rep count ecx); writing them zero-extends.
+AReg(st, asz, r) == IF asz = st.W THEN st.regs[r] ELSE V(Zext(st.W, Trun(asz, st.regs[r])))
+StrIter(mn, st, s, asz) ==
   LET n == s \div 8  W == st.W
-      si == st.regs[RSI(st)]  di == st.regs[RDI(st)]
-      d == V(IF st.fl.DF = 0 THEN FromNat(W, n) ELSE Neg(W, FromNat(W, n)))
-      adv(t, r) == SetReg(t, r, Add(W, t.regs[r], d))
+      si == AReg(st, asz, RSI(st))  di == AReg(st, asz, RDI(st))
+      d == V(IF st.fl.DF = 0 THEN FromNat(asz, n) ELSE Neg(asz, FromNat(asz, n)))
+      adv(t, r) == SetReg(t, r, IF asz = W THEN Add(W, t.regs[r], d)
+                                ELSE Zext(W, V(Add(asz, V(Trun(asz, t.regs[r])), d))))
   IN
   CASE mn = "movs" -> IF ~(InWin(st, si, n) /\ InWin(st, di, n)) THEN OOB
                       ELSE adv(adv(Sto(st, di, n, Ld(st, si, n)), RSI(st)), RDI(st))
@@ -192,15 +196,16 @@ StrIter(mn, st, s) ==
     [] mn = "cmps" -> IF ~(InWin(st, si, n) /\ InWin(st, di, n)) THEN OOB
                       ELSE adv(adv([st EXCEPT !.fl = SubFl(@, s, Ld(st, si, n), Ld(st, di, n), 0)], RSI(st)), RDI(st))
 
-RECURSIVE RepLoop(_,_,_,_,_)
-RepLoop(mn, pfx, st, s, fuel) ==
+RECURSIVE RepLoop(_,_,_,_,_,_)
+RepLoop(mn, pfx, st, s, asz, fuel) ==
   IF IsOob(st) \/ fuel = 0 THEN OOB
-  ELSE IF IsZero(st.regs[RC(st)]) THEN st
-  ELSE LET t == V(StrIter(mn, st, s)) IN
+  ELSE IF IsZero(AReg(st, asz, RC(st))) THEN st
+  ELSE LET t == V(StrIter(mn, st, s, asz)) IN
        IF IsOob(t) THEN OOB
-       ELSE LET u == V(SetReg(t, RC(st), Sub(st.W, t.regs[RC(st)], One(st.W)))) IN
+       ELSE LET c1 == V(Sub(st.W, AReg(t, asz, RC(st)), One(st.W)))
+                u == V(SetReg(t, RC(st), IF asz = st.W THEN c1 ELSE Zext(st.W, Trun(asz, c1)))) IN
             IF mn \in {"scas", "cmps"} /\ ((pfx = "repe" /\ u.fl.ZF = 0) \/ (pfx = "repne" /\ u.fl.ZF = 1))
-            THEN u ELSE RepLoop(mn, pfx, u, s, fuel - 1)
+            THEN u ELSE RepLoop(mn, pfx, u, s, asz, fuel - 1)
 
 (* ------------------------------------------------------------------ *)
 (* SSE lanes (values are 16 bytes)                                    *)
@@ -427,7 +432,8 @@ BranchExec(ins, st, addr, npc) ==
                         ELSE Ok(st, IF Cond(st.fl, ins.cc) THEN tgt ELSE npc, {}, {})
 
 StringExec(ins, st, npc) ==
-  LET t == V(IF ins.pfx = "" THEN StrIter(ins.mn, st, ins.sz) ELSE RepLoop(ins.mn, ins.pfx, st, ins.sz, 64)) IN
+  LET asz == IF "as" \in DOMAIN ins THEN ins.as ELSE st.W
+      t == V(IF ins.pfx = "" THEN StrIter(ins.mn, st, ins.sz, asz) ELSE RepLoop(ins.mn, ins.pfx, st, ins.sz, asz, 64)) IN
   IF IsOob(t) THEN Unspec("oob") ELSE Ok(t, npc, {}, {})
 
 \* 128-bit memory operands of legacy SSE instructions must be 16-byte aligned
@@ -523,6 +529,8 @@ ExecR(ins, st, addr, npc) ==
 Exec(ins, st, addr) ==
   LET npc == V(Add(st.W, addr, FromNat(st.W, ins.len))) IN
   IF ins.mn \in NotModelled THEN Unspec("not modelled: " \o ins.mn)
+  ELSE IF \E j \in 1..Len(ins.ops) : ins.ops[j].k = "mem" /\ "seg" \in DOMAIN ins.ops[j] /\ ins.ops[j].seg \in {"fs", "gs"}
+       THEN Unspec("fs/gs segment base")       \* es/cs/ss/ds: base 0 (64-bit mode, flat 32-bit model)
   ELSE IF ~ExplicitOK(ins, st, npc) THEN Unspec("oob")
   ELSE ExecR(V(Resolve(ins, st, npc)), st, addr, npc)
 =============================================================================
